@@ -29,10 +29,15 @@ def run(ctx):
     from . import c14
     r168(ctx, wr)
     r169(ctx)
+    from . import append_route as _ar16
+    _ar16.parts_first_rule(ctx, 'R16.10')   # _metadata then _common_metadata, the second named after the first
     from . import c02 as _c02
     _c02.r22(ctx)
     c14.r145(ctx, 'R16.7')
     from . import callsigs as _cs
+    from . import findings3 as _f3o
+    _f3o.open_routes(ctx, 'R16.9')      # a file whose key-values are to be read must open: the footer is found from the end
+    _cs.who_may_call_rule(ctx, 'R16.CS16')
     _cs.general_rules(ctx, 'R16', ['writer.write', 'writer.update_file_custom_metadata', 'util.update_custom_metadata', 'writer.write_simple', 'writer.write_multi', 'writer.write_common_metadata', 'writer.consolidate_categories'])
 
 
